@@ -43,12 +43,14 @@ def ext_of(layout: str) -> str:
     return EXT[family(layout)]
 
 
-def build(layout: str, members: list[dict]) -> bytes:
+def build(layout: str, members: list[dict], *, dict_size: int | None = None, substreams: bool = True) -> bytes:
+    """``dict_size`` (7z LZMA / LZMA2 folders: dictionary used and declared) and ``substreams`` (7z: write the SubStreamsInfo section)
+    only matter for 7z layouts; a member's ``declared_size`` is honoured by the 7z writer (digests are left out then)."""
     fam = family(layout)
     if fam == "zip":
         return _zip(members, zipfile.ZIP_STORED if layout == "zip-stored" else zipfile.ZIP_DEFLATED)
     if fam == "7z":
-        return _7z(layout, members)
+        return _7z(layout, members, dict_size, substreams)
     return _tar(members, {"tar": "w", "tar.gz": "w:gz", "tar.bz2": "w:bz2", "tar.xz": "w:xz"}[fam], TAR_FORMATS[tar_format(layout)])
 
 
@@ -124,7 +126,7 @@ def _tar(members, mode, fmt=tarfile.PAX_FORMAT) -> bytes:
     return bio.getvalue()
 
 
-def _7z(layout: str, members) -> bytes:
+def _7z(layout: str, members, dict_size=None, substreams=True) -> bytes:
     parts = layout.split("-")
     enc = layout.endswith("-enchdr")
     if parts[1] == "mixed":
@@ -139,6 +141,9 @@ def _7z(layout: str, members) -> bytes:
         if ty == "dir":
             entries.append({"name": m["name"].rstrip("/") if m.get("strip_slash", True) else m["name"], "data": None, "attr": m.get("attr")})
         elif ty == "file":
-            entries.append({"name": m["name"], "data": m.get("data") or b"", "phantom": bool(m.get("phantom")), "attr": m.get("attr")})
+            entries.append({"name": m["name"], "data": m.get("data") or b"", "phantom": bool(m.get("phantom")), "attr": m.get("attr"),
+                            "declared_size": m.get("declared_size")})
         # links / devices have no 7z form in this writer
-    return sevenz.make_7z(entries, coder=coder, layout=lay, encoded_header=enc, mixed_coders=mixed)
+    forged = any(e.get("declared_size") is not None for e in entries)
+    return sevenz.make_7z(entries, coder=coder, layout=lay, encoded_header=enc, mixed_coders=mixed, dict_size=dict_size,
+                          with_substreams=substreams, with_crc=not forged)
